@@ -145,11 +145,17 @@ func admit(c uint64, n, m int) bool {
 
 // step feeds one entry to the real sampler and the reference; returns a mismatch description.
 func (r *rig) step(useChild bool, k key, t int64) string {
+	return r.stepAt(useChild, k, time.Unix(0, t))
+}
+
+// stepAt: the entry carries exactly tm (which may be the zero Time: its UnixNano is what the sampler compares).
+func (r *rig) stepAt(useChild bool, k key, tm time.Time) string {
+	t := tm.UnixNano()
 	core := r.parent
 	if useChild {
 		core = r.child
 	}
-	ent := zapcore.Entry{Level: k.lvl, Message: k.msg, Time: time.Unix(0, t)}
+	ent := zapcore.Entry{Level: k.lvl, Message: k.msg, Time: tm}
 	r.hooks = r.hooks[:0]
 	ce := core.Check(ent, nil)
 	if ce != nil {
@@ -548,6 +554,52 @@ func configBuiltSamplers(run *ev.Run) (evals int64) {
 	return
 }
 
+// zeroTimes: entries without a timestamp (Entry.Time is the zero Time, as entries made by hand or bridged
+// from records without a time are) mixed with stamped ones: every sequence of length <= maxLen over
+// {zero-time, stamped now, stamped one tick later, stamped two ticks later} for one key. The sampler compares
+// UnixNano values only; the zero Time's lies far below every real instant, so such an entry counts in
+// whatever window is open and never opens one.
+func zeroTimes(run *ev.Run, maxLen int) (evals int64) {
+	tick := time.Second
+	names := []string{"zero-time", "t0", "t0+tick+1ns", "t0+2tick+2ns"}
+	// t0 lies in the past of the machine's clock in one pass and in its future in the other: nothing may depend on it
+	for ci, cfg := range [][2]int{{1, 0}, {2, 0}, {0, 2}, {1, 2}, {1, 0}, {2, 0}, {0, 2}, {1, 2}} {
+		base := time.Unix(1_000_000_000, 0)
+		if ci >= 4 {
+			base = time.Now().Add(1000 * time.Hour)
+		}
+		times := []time.Time{{}, base, base.Add(tick + 1), base.Add(2*tick + 2)}
+		seq := make([]int, 0, maxLen)
+		var rec func()
+		rec = func() {
+			if len(seq) > 0 {
+				r := newRig(cfg[0], cfg[1], tick)
+				for i, s := range seq {
+					evals++
+					if msg := r.stepAt(i%3 == 2, key{zapcore.InfoLevel, "a"}, times[s]); msg != "" {
+						var parts []string
+						for _, x := range seq[:i+1] {
+							parts = append(parts, names[x])
+						}
+						run.Report("seq:zero-time-entries", fmt.Sprintf("first=%d thereafter=%d tick=1s, entries (info,\"a\") stamped %s: entry %d: %s", cfg[0], cfg[1], strings.Join(parts, ", "), i, msg), map[string]any{"first": cfg[0], "thereafter": cfg[1], "times": parts})
+						break
+					}
+				}
+			}
+			if len(seq) == maxLen {
+				return
+			}
+			for s := range times {
+				seq = append(seq, s)
+				rec()
+				seq = seq[:len(seq)-1]
+			}
+		}
+		rec()
+	}
+	return
+}
+
 // messageLengths: for every message length up to maxLen, three messages that differ only in their
 // last byte (so they fall into different buckets) and the first one once more, on a sampler that admits
 // one entry per window: x admitted, y admitted, z admitted, x dropped. A key derived from part of the
@@ -655,6 +707,11 @@ func main() {
 		msgMax = 5000
 	}
 	lenEvals := messageLengths(run, msgMax)
+	ztLen := 5
+	if run.Thorough() {
+		ztLen = 7
+	}
+	ztEvals := zeroTimes(run, ztLen)
 	var items []string
 	for _, mode := range []string{"inwindow", "straddle"} {
 		for n := 0; n <= 2; n++ {
@@ -688,6 +745,7 @@ func main() {
 	run.Assume = []string{
 		"messages are bucketed by fnv32a mod 4096 per level (the 'fixed hash' of the statement); collider of \"a\" found by search: " + collider + "; non-ASCII message " + strconv.Quote(nonASCII) + " and its collider " + strconv.Quote(nonASCIICollider),
 		"timestamps are int64 nanoseconds well inside the representable range",
+		"entries without a timestamp (the zero Time) mixed with stamped ones: every sequence up to the stated length over {zero-time, t0, t0+tick+1ns, t0+2tick+2ns}",
 		"message lengths: for every length up to the stated maximum, messages that differ only in their last byte (hence in their bucket), and messages that differ only in their first byte, at one instant on a first=1 sampler",
 		"samplers built by zap.Config: SamplingConfig{Initial, Thereafter} in 0..4 x 0..4 on the production configuration and 0..2 x 0..3 on each of the 63 other combinations of {NewProductionConfig, NewDevelopmentConfig} x Development x Encoding json/console x DisableCaller x DisableStacktrace x logging through a With+Named child; 14 same-key entries at one pinned instant; lines in the sink and hook decisions against the reference",
 		"concurrent part: the sampler's atomic operations are the scheduling points; all interleavings without a preemption bound for <=4 entries, preemption bound 4 above",
@@ -714,6 +772,8 @@ func main() {
 		"config_built_sampler_entries": cfgEvals,
 		"message_length_sweep_max":     msgMax,
 		"message_length_sweep_entries": lenEvals,
+		"zero_time_sequences_max_len":  ztLen,
+		"zero_time_entries":            ztEvals,
 		"concurrent_drivers":           len(items),
 		"concurrent_schedules":         sum.Execs,
 		"concurrent_max_threads":       sum.MaxThreads,
